@@ -22,7 +22,7 @@ fn unicode_cases() -> impl Strategy<Value = Case> {
     let piece = prop_oneof![
         Just("é"), Just("日本"), Just("😀"), Just("ü"), Just("\u{a0}"), Just("\u{feff}"), Just("\u{2028}"), Just("x"), Just("a b"), Just("\u{80}"), Just("\u{7f}"), Just("\u{e000}"), Just("\u{10ffff}"),
     ];
-    let place = 0usize..10;
+    let place = 0usize..16;
     (proptest::collection::vec((piece, place), 1..4), 0usize..4, any::<bool>()).prop_map(|(ps, depth, media)| {
         let mut body = String::new();
         for (p, place) in &ps {
@@ -36,7 +36,14 @@ fn unicode_cases() -> impl Strategy<Value = Case> {
                 6 => format!("&[data-x=\"{p}\"] {{ k: v }}\n"),
                 7 => format!("u: url({});\n", p.replace(' ', "%20")),
                 8 => format!("s: string.to-upper-case(\"{p}\") + string.length(\"{p}\");\n"),
-                _ => format!("/*! {p} */\n// {p}\n"),
+                9 => format!("/*! {p} */\n// {p}\n"),
+                // non-ASCII text that lives only in an at-rule's name or prelude (a different writer path)
+                10 => format!("@keyframes k{} {{ from {{ k: v }} }}\n", p.replace(' ', "-").replace('\u{7f}', "d").replace('\u{a0}', "n").replace('\u{feff}', "b").replace('\u{2028}', "l")),
+                11 => format!("@foo \"{p}\";\n"),
+                12 => format!("@media (foo: \"{p}\") {{ k: v }}\n"),
+                13 => format!("@supports (a: \"{p}\") {{ k: v }}\n"),
+                14 => format!("@foo-{} bar {{ k: v }}\n", p.replace(' ', "-").replace('\u{7f}', "d").replace('\u{a0}', "n").replace('\u{feff}', "b").replace('\u{2028}', "l")),
+                _ => format!("@font-face {{ font-family: x; src: url(\"{p}.woff\") }}\n"),
             });
         }
         let mut s = String::from("@use \"sass:string\";\n");
